@@ -194,6 +194,11 @@ impl LifeWorld {
             _ => return "bad-op".into(),
         }
         let _ = self.regions_of(&H::ArcMap(Arc::new(Map::new())));
+        // a mapping is released once: the executable's own munmap sees every release (src/interpose.rs)
+        let (dbl, at) = crate::interpose::take_double_unmaps();
+        if dbl > 0 {
+            rec.fail("C12", "mapping-unmapped-twice", &format!("{} range at {:#x} released {} more time(s)", line, at, dbl));
+        }
         // ---- oracle: an owned mapping is mapped iff some live handle reaches it; external ones always are;
         //      every live handle can still read its memory
         for (rid, (path, owned)) in &self.rids {
